@@ -180,6 +180,8 @@ let run_gs (toks : string list) : string =
     | Inr _ -> Buffer.add_string b " ERR") rs;
   Buffer.add_string b " | OBS";
   Buffer.add_buffer b obs;
+  Buffer.add_string b " | B2";   (* Bytes again, after every batch helper has run: unchanged *)
+  List.iter (fun p -> Buffer.add_string b (" " ^ hex_of_bytes (bw_bytes p))) rs;
   Buffer.contents b
 
 (* reader spec "plan=3,5;eofd=1;fail=100" *)
@@ -315,6 +317,22 @@ let handle toks =
       (match ipa_read (reader_of_spec spec (bytes_of_hex h)) with
        | Inl (ip, _) -> "OK " ^ hex_of_bytes (List.concat (ipa_write_chunks ip))
        | Inr _ -> "ERR")
+  | "frbig" :: h :: rest ->
+      let v = z_of_hex h in
+      let v = if rest = ["neg"] then ZZ.neg v else v in
+      frhex (mkfr v)
+  | ["ipawr2"; h1; h2] ->
+      (match ipa_read (reader_of_spec "-" (bytes_of_hex h1)), ipa_read (reader_of_spec "-" (bytes_of_hex h2)) with
+       | Inl (p1, _), Inl (p2, _) ->
+           "OK " ^ hex_of_bytes (List.concat (ipa_write_chunks p1)) ^ " " ^ hex_of_bytes (List.concat (ipa_write_chunks p2))
+       | _, _ -> "BADPROOF")
+  | ["grp"; _; m] ->
+      let m = int_of_string m in
+      let pts = Lazy.force crs in
+      let rec take k l = if k = 0 then [] else match l with [] -> [] | x :: r -> x :: take (k - 1) r in
+      let sel = take m pts in
+      string_of_int (List.length sel) ^ " " ^
+      String.concat "" (List.map (fun p -> String.sub (hex_of_bytes (bw_bytes p)) 0 8) sel)
   | ["mpwr"; failat; h] ->
       (match mp_read true (reader_of_spec "-" (bytes_of_hex h)) with
        | Inl (d, ip) ->
